@@ -939,7 +939,7 @@ def run(tier: str, replay: str | None = None):
         cases = [{"params": c["params"], "ret": c["ret"], "body": c["body"], "calls": [c["call"]] if "call" in c else c["calls"]}]
     else:
         cases = [dict(c) for c in load_corpus()]
-        n = 1400 if tier == "quick" else 9000
+        n = 900 if tier == "quick" else 9000
         for _ in range(n):
             cases.append(gen_case(rng, 6))
     # add the member calls of every one-union call (oracle (b))
